@@ -318,4 +318,180 @@ theorem sweep_run (cfg : Cfg α) (s : St α) (es : List α) (hn : 2 ≤ cfg.n)
     simp only [h5, h6]
     simp [hi]
 
+/-! ### `sweep_complete`, sweep by sweep -/
+
+/-- One whole sweep seen from outside: the energy `e` of its last local minimisation is all
+that `sweep_complete` looks at. -/
+def sweepStep (cfg : Cfg α) (s : St α) (e : α) : Res α := sweepComplete cfg (afterSweep s (some e))
+
+/-- `convergence_check` at the end of a sweep whose last energy is `e`. -/
+def Conv (cfg : Cfg α) (s : St α) (e : α) : Prop := ∃ p, s.prevE = some p ∧ |e - p| < cfg.tol
+
+/-- `target_times` has an entry for the end of every step (`SequenceData`: `steps + 1` times). -/
+def TimesOk (cfg : Cfg α) : Prop := cfg.steps + 1 ≤ cfg.times.length
+
+theorem convergenceCheck_afterSweep (cfg : Cfg α) (s : St α) (e : α) :
+    convergenceCheck cfg.tol (afterSweep s (some e)) = true ↔ Conv cfg s e := by
+  unfold convergenceCheck afterSweep Conv
+  cases h : s.prevE with
+  | none => simp
+  | some p => simp [absv_eq_abs]
+
+/-- `target_time` after step `k = s.tsIndex` completes. -/
+def nextTarget (cfg : Cfg α) (s : St α) : α :=
+  if s.tsIndex + 1 < cfg.steps then (cfg.times[s.tsIndex + 2]?).getD s.tgtT else s.tgtT
+
+/-- **Converged sweep**: the step completes (once), time advances to the target, the sweep
+count is reset, `previous_energy` is *kept as it was* (it is neither reset nor set to the
+converged energy), `current_energy` is cleared, the object is at a sweep start again. -/
+theorem sweepStep_converged (cfg : Cfg α) (s : St α) (e : α) (hs : SweepStart cfg s)
+    (ht : TimesOk cfg) (hc : Conv cfg s e) :
+    sweepStep cfg s e =
+      ⟨{ s with curT := s.tgtT, sweepCount := 0, tsIndex := s.tsIndex + 1,
+                tgtT := nextTarget cfg s, curE := none },
+       [.sweepDone true, .stepDone s.tsIndex], none⟩ := by
+  obtain ⟨hd, hi, hl, hr, hce⟩ := hs
+  have hcc := (convergenceCheck_afterSweep cfg s e).mpr hc
+  unfold sweepStep sweepComplete
+  rw [if_pos hcc]
+  unfold timestepComplete nextTarget
+  by_cases hf : s.tsIndex + 1 < cfg.steps
+  · have hfin : finished cfg ({ ({ afterSweep s (some e) with curT := (afterSweep s (some e)).tgtT, sweepCount := 0 } : St α) with tsIndex := (afterSweep s (some e)).tsIndex + 1 } : St α) = false := by
+      unfold finished; exact decide_eq_false (by simp only [afterSweep]; omega)
+    have hidx : s.tsIndex + 2 < cfg.times.length := by unfold TimesOk at ht; omega
+    simp only [hfin]
+    simp [afterSweep, List.getElem?_eq_getElem hidx, sweepTail, assertsOk, hi, hce, hd, hf, hl, hr]
+  · have hfin : finished cfg ({ ({ afterSweep s (some e) with curT := (afterSweep s (some e)).tgtT, sweepCount := 0 } : St α) with tsIndex := (afterSweep s (some e)).tsIndex + 1 } : St α) = true := by
+      unfold finished; exact decide_eq_true (by simp only [afterSweep]; omega)
+    simp only [hfin]
+    simp [afterSweep, sweepTail, assertsOk, hi, hce, hd, hf]
+
+/-- **Unconverged sweep, budget left**: `previous_energy` becomes this sweep's energy. -/
+theorem sweepStep_continue (cfg : Cfg α) (s : St α) (e : α) (hs : SweepStart cfg s)
+    (hc : ¬ Conv cfg s e) (hm : s.sweepCount + 2 ≤ cfg.maxSweeps) :
+    sweepStep cfg s e =
+      ⟨{ s with prevE := some e, sweepCount := s.sweepCount + 1, curE := none },
+       [.sweepDone false], none⟩ := by
+  obtain ⟨hd, hi, hl, hr, hce⟩ := hs
+  have hcc : ¬ convergenceCheck cfg.tol (afterSweep s (some e)) = true :=
+    fun h => hc ((convergenceCheck_afterSweep cfg s e).mp h)
+  unfold sweepStep sweepComplete
+  rw [if_neg hcc]
+  have hex : exhausted cfg (afterSweep s (some e)) = false := by
+    unfold exhausted; exact decide_eq_false (by simp only [afterSweep]; omega)
+  rw [hex]
+  simp [sweepTail, assertsOk, afterSweep, hi, hce, hd]
+
+/-- **Unconverged sweep, budget exhausted** (`sweep_count + 1 > max_sweeps` after the
+increment): `RuntimeError`. -/
+theorem sweepStep_raise (cfg : Cfg α) (s : St α) (e : α)
+    (hc : ¬ Conv cfg s e) (hm : cfg.maxSweeps < s.sweepCount + 2) :
+    (sweepStep cfg s e).evs = [.sweepDone false, .raise]
+      ∧ (sweepStep cfg s e).halt = some .notConverged := by
+  have hcc : ¬ convergenceCheck cfg.tol (afterSweep s (some e)) = true :=
+    fun h => hc ((convergenceCheck_afterSweep cfg s e).mp h)
+  unfold sweepStep sweepComplete
+  rw [if_neg hcc]
+  have hex : exhausted cfg (afterSweep s (some e)) = true := by
+    unfold exhausted; exact decide_eq_true (by simp only [afterSweep]; omega)
+  rw [hex]
+  simp
+
+/-- The three cases are exhaustive. -/
+theorem sweepStep_cases (cfg : Cfg α) (s : St α) (e : α) (hs : SweepStart cfg s)
+    (ht : TimesOk cfg) :
+    (Conv cfg s e ∧ sweepStep cfg s e =
+        ⟨{ s with curT := s.tgtT, sweepCount := 0, tsIndex := s.tsIndex + 1,
+                  tgtT := nextTarget cfg s, curE := none },
+         [.sweepDone true, .stepDone s.tsIndex], none⟩)
+    ∨ (¬ Conv cfg s e ∧ s.sweepCount + 2 ≤ cfg.maxSweeps ∧ sweepStep cfg s e =
+        ⟨{ s with prevE := some e, sweepCount := s.sweepCount + 1, curE := none },
+         [.sweepDone false], none⟩)
+    ∨ (¬ Conv cfg s e ∧ cfg.maxSweeps < s.sweepCount + 2
+        ∧ (sweepStep cfg s e).evs = [.sweepDone false, .raise]
+        ∧ (sweepStep cfg s e).halt = some .notConverged) := by
+  by_cases hc : Conv cfg s e
+  · exact Or.inl ⟨hc, sweepStep_converged cfg s e hs ht hc⟩
+  · by_cases hm : s.sweepCount + 2 ≤ cfg.maxSweeps
+    · exact Or.inr (Or.inl ⟨hc, hm, sweepStep_continue cfg s e hs hc hm⟩)
+    · exact Or.inr (Or.inr ⟨hc, by omega, sweepStep_raise cfg s e hc (by omega)⟩)
+
+/-- The run, one energy per sweep. -/
+def runSweeps (cfg : Cfg α) : List α → St α → Res α
+  | [], s => ⟨s, [], none⟩
+  | e :: es, s =>
+    if finished cfg s then ⟨s, [], none⟩
+    else (sweepStep cfg s e).andThen (fun s' => runSweeps cfg es s')
+
+theorem runSweeps_cons (cfg : Cfg α) (e : α) (es : List α) (s : St α) (h : Unfinished cfg s) :
+    runSweeps cfg (e :: es) s = (sweepStep cfg s e).andThen (fun s' => runSweeps cfg es s') := by
+  rw [runSweeps]; simp [finished_false h]
+
+theorem runSweeps_finished (cfg : Cfg α) (es : List α) (s : St α) (h : ¬ Unfinished cfg s) :
+    runSweeps cfg es s = ⟨s, [], none⟩ := by
+  cases es with
+  | nil => rfl
+  | cons e es =>
+    rw [runSweeps]
+    have : finished cfg s = true := by
+      unfold finished Unfinished at *; simp; omega
+    simp [this]
+
+/-- Insert the local minimisations of a sweep in front of every `sweepDone`. -/
+def expandEvs (n : Nat) : List Event → List Event
+  | [] => []
+  | .sweepDone b :: r =>
+    (sweepPositions n).map (fun p => Event.min p.1 p.2) ++ .sweepDone b :: expandEvs n r
+  | ev :: r => ev :: expandEvs n r
+
+theorem expandEvs_sweepStep (cfg : Cfg α) (s : St α) (e : α) (hs : SweepStart cfg s)
+    (ht : TimesOk cfg) (rest : List Event) :
+    expandEvs cfg.n ((sweepStep cfg s e).evs ++ rest) =
+      (sweepPositions cfg.n).map (fun p => Event.min p.1 p.2) ++ (sweepStep cfg s e).evs
+        ++ expandEvs cfg.n rest := by
+  rcases sweepStep_cases cfg s e hs ht with ⟨_, h⟩ | ⟨_, _, h⟩ | ⟨_, _, h, _⟩ <;>
+    simp [h, expandEvs]
+
+theorem sweepStart_after (cfg : Cfg α) (s : St α) (e : α) (hs : SweepStart cfg s)
+    (ht : TimesOk cfg) (hh : (sweepStep cfg s e).halt = none) :
+    SweepStart cfg (sweepStep cfg s e).st := by
+  obtain ⟨hd, hi, hl, hr, hce⟩ := hs
+  rcases sweepStep_cases cfg s e ⟨hd, hi, hl, hr, hce⟩ ht with ⟨_, h⟩ | ⟨_, _, h⟩ | ⟨_, _, _, h⟩
+  · rw [h]; exact ⟨hd, hi, hl, hr, hce⟩
+  · rw [h]; exact ⟨hd, hi, hl, hr, hce⟩
+  · rw [h] at hh; cases hh
+
+/-- **Refinement.** The call-by-call machine fed with whole sweeps (`p.1 ++ [p.2]`, of the
+right length) is the sweep-by-sweep machine fed with the last energy of each sweep, with the
+fixed position pattern inserted before every `sweepDone` — same final object, same exception. -/
+theorem runTape_eq_runSweeps (cfg : Cfg α) (hn : 2 ≤ cfg.n) (ht : TimesOk cfg) :
+    ∀ (ess : List (List α × α)) (s : St α), SweepStart cfg s →
+      (∀ p ∈ ess, p.1.length + 1 = (sweepPositions cfg.n).length) →
+      runTape cfg (ess.flatMap (fun p => p.1 ++ [p.2])) s =
+        ⟨(runSweeps cfg (ess.map Prod.snd) s).st,
+         expandEvs cfg.n (runSweeps cfg (ess.map Prod.snd) s).evs,
+         (runSweeps cfg (ess.map Prod.snd) s).halt⟩
+  | [], s, _, _ => by simp [runTape_nil, runSweeps, expandEvs]
+  | p :: ess, s, hs, hl => by
+    by_cases hu : Unfinished cfg s
+    · have hlen : (p.1 ++ [p.2]).length = (sweepPositions cfg.n).length := by
+        simpa using hl p (by simp)
+      have hlast : (p.1 ++ [p.2]).getLast? = some p.2 := by simp
+      rw [List.flatMap_cons, runTape_append, sweep_run cfg s _ hn hs hu hlen, hlast,
+        List.map_cons, runSweeps_cons cfg p.2 _ s hu]
+      have hss : sweepComplete cfg (afterSweep s (some p.2)) = sweepStep cfg s p.2 := rfl
+      rw [hss]
+      have hex := expandEvs_sweepStep cfg s p.2 hs ht
+      cases hh : (sweepStep cfg s p.2).halt with
+      | some h =>
+        have := hex []
+        simp only [List.append_nil, expandEvs] at this
+        simp [Res.andThen, hh, this]
+      | none =>
+        have ih := runTape_eq_runSweeps cfg hn ht ess (sweepStep cfg s p.2).st
+          (sweepStart_after cfg s p.2 hs ht hh) (fun q hq => hl q (by simp [hq]))
+        simp only [Res.andThen, hh, ih, hex]
+    · rw [runTape_finished cfg _ s hu, runSweeps_finished cfg _ s hu]
+      simp [expandEvs]
+
 end EmuVerif.Dmrg
